@@ -232,12 +232,12 @@ theorem murmur3_eq_spec (data : Bytes) (seed : Nat) (hl : data.length < 2 ^ 32) 
   | [], htl =>
     simp only [List.length_nil] at htl
     rw [← htl]
-    simp only [Nat.reduceEqDiff, if_false, or_self, Option.bind_some]
+    simp only [Nat.reduceEqDiff, if_false, or_self]
     exact hfin h' _ (by unfold Spec.Filters.murmurBody; rfl)
   | [a], htl =>
     simp only [List.length_cons, List.length_nil] at htl
     rw [← htl]
-    simp only [Nat.reduceEqDiff, if_false, if_true, or_false, false_or, true_or, Option.bind_some,
+    simp only [Nat.reduceEqDiff, if_false, if_true, or_false, Option.bind_some,
       List.getElem?_cons_zero, Option.map_some]
     refine hfin _ _ ?_
     rw [UInt32.ofNat_xor, word1, ofNat_scramble]
@@ -245,7 +245,7 @@ theorem murmur3_eq_spec (data : Bytes) (seed : Nat) (hl : data.length < 2 ^ 32) 
   | [a, b], htl =>
     simp only [List.length_cons, List.length_nil] at htl
     rw [← htl]
-    simp only [Nat.reduceEqDiff, if_false, if_true, or_false, false_or, true_or, or_true, Option.bind_some,
+    simp only [Nat.reduceEqDiff, if_false, if_true, or_false, or_true, Option.bind_some,
       List.getElem?_cons_zero, List.getElem?_cons_succ, Option.map_some]
     refine hfin _ _ ?_
     rw [UInt32.ofNat_xor, word2, ofNat_scramble]
@@ -253,7 +253,7 @@ theorem murmur3_eq_spec (data : Bytes) (seed : Nat) (hl : data.length < 2 ^ 32) 
   | [a, b, c], htl =>
     simp only [List.length_cons, List.length_nil] at htl
     rw [← htl]
-    simp only [Nat.reduceEqDiff, if_false, if_true, or_false, false_or, true_or, or_true, Option.bind_some,
+    simp only [Nat.reduceEqDiff, if_true, or_true, Option.bind_some,
       List.getElem?_cons_zero, List.getElem?_cons_succ, Option.map_some]
     refine hfin _ _ ?_
     rw [UInt32.ofNat_xor, word3, ofNat_scramble]
@@ -386,16 +386,17 @@ theorem bloom_no_false_negatives (bf bf' : Bloom) (items : List Bytes)
 theorem addFrom_isSome (item : Bytes) (hl : item.length < 2 ^ 32) (n : Nat) : ∀ (bf : Bloom) (i : Nat),
     0 < bf.size → bf.bitField.length = bf.size * 8 → (bf.addFrom item n i).isSome := by
   induction n with
-  | zero => intro bf i _ _; rfl
+  | zero => intro bf i _ _; simp only [Bloom.addFrom, Option.isSome_some]
   | succ n ih =>
     intro bf i hs hb
-    have hp := bloom_position_eq_spec bf.size bf.fc bf.tweak i item bf.bitField hs hl
+    have hp : bf.position item i = some (Spec.Filters.bloomBit bf.size bf.tweak i item) :=
+      bloom_position_eq_spec bf.size bf.fc bf.tweak i item bf.bitField hs hl
     have hlt : Spec.Filters.bloomBit bf.size bf.tweak i item < bf.bitField.length := by
-      rw [hb]; unfold Spec.Filters.bloomBit; exact Nat.mod_lt _ (by omega)
-    simp only [Bloom.addFrom, Option.bind_eq_bind]
-    rw [hp]
-    simp only [Option.bind_some, if_pos hlt]
-    exact ih _ _ hs (by simp only [List.length_set]; exact hb)
+      rewrite [hb]; unfold Spec.Filters.bloomBit; exact Nat.mod_lt _ (by omega)
+    generalize Spec.Filters.bloomBit bf.size bf.tweak i item = bit at hp hlt
+    -- (`rewrite`, not `simp only`: the kernel does not terminate on the `dsimp`-style proof term)
+    rewrite [Bloom.addFrom, hp, Option.bind_eq_bind, Option.bind_some, if_pos hlt]
+    exact ih _ _ hs (by rewrite [List.length_set]; exact hb)
 
 /-- adding succeeds whenever the filter is well formed -/
 theorem bloom_add_isSome (bf : Bloom) (item : Bytes) (hs : 0 < bf.size) (hb : bf.bitField.length = bf.size * 8)
